@@ -599,6 +599,11 @@ pub fn selftest(check: &dyn Check, seed: u64, runs: u64) -> i32 {
         eprintln!("HARNESS-ERROR: {:?} {:?}", ra.total.harness_errors, rb.total.harness_errors);
         return 2;
     }
+    if !ra.total.violations.is_empty() || !rb.total.violations.is_empty() {
+        // a worker stops after a few violations, so the trace lists would differ for that reason alone
+        eprintln!("HARNESS-ERROR: selftest of {} met violations (run the check itself): {:?}", check.id(), ra.total.violations.iter().chain(rb.total.violations.iter()).map(|v| format!("run {} {}", v.run, v.violation.oracle)).take(4).collect::<Vec<_>>());
+        return 2;
+    }
     if a != b {
         let mut n = 0;
         for (x, y) in a.iter().zip(b.iter()) {
